@@ -127,6 +127,17 @@ fn check_bytes_in_place(bytes: &[u8]) -> CaseResult {
         if iterated != pairs {
             return Err(Fail::new("iter", format!("{}: iteration yields {iterated:?}, the format defines {pairs:?}", desc())));
         }
+        // However iter() is consumed (an iterator may override these).
+        {
+            let (lo, hi) = view.iter().size_hint();
+            let last = view.iter().last().map(|(t, v)| (t.value(), v.to_vec()));
+            let skipped: Vec<(u32, Vec<u8>)> = view.iter().skip(n / 2).map(|(t, v)| (t.value(), v.to_vec())).collect();
+            let stepped: Vec<u32> = view.iter().step_by(3).map(|(t, _)| t.value()).collect();
+            let want_stepped: Vec<u32> = pairs.iter().step_by(3).map(|p| p.0).collect();
+            if view.iter().count() != n || last.as_ref() != pairs.last() || skipped[..] != pairs[n / 2..] || stepped != want_stepped || lo > n || hi.map(|h| h < n).unwrap_or(false) {
+                return Err(Fail::new("iter:adaptors", format!("{}: iter() consumed through count / last / skip / step_by / size_hint disagrees with plain iteration", desc())));
+            }
+        }
         // Values tile the bytes after the header, in order.
         if n >= 1 {
             let mut at = 8 * n;
